@@ -340,7 +340,7 @@ class LoadRecorder:
 def validate(V, tier):
     """Record the repository's tests, validate with TLC, compare values."""
     import catalogue
-    from common import BUILD, REPO, VERIF, MachineryError, run_tlc
+    from common import to_tlc, BUILD, REPO, VERIF, MachineryError, run_tlc
     out = os.path.join(BUILD, 'load-traces-repo.json')
     if os.path.exists(out):
         os.remove(out)
@@ -390,7 +390,7 @@ def validate(V, tier):
     }
     path = os.path.join(BUILD, 'models_traces.json')
     with open(path, 'w') as f:
-        json.dump(data, f)
+        f.write(to_tlc(json.dumps(data)))
     t = run_tlc('MC_Trace_Load', 'Trace_Load.cfg', workers=1,
                 env={'YATIML_MODELS': path}, timeout=3600, name='trace-load')
     if t.violated:
